@@ -131,6 +131,7 @@ class Run:
         self.hedge_draws = 0
         self.repeat_in_loop = 0
         self.step_u0 = None
+        self.last_fit_centre = None
 
     def v(self, prop, clause, key, detail=""):
         self.viol.append((prop, clause, key, str(detail)[:400]))
@@ -176,6 +177,11 @@ def make_target(run):
             a = ans.get(k, default_ans(k))
         if a == "S":
             run.n_S += 1
+        if a == "T":
+            # improvement exactly equal to the sufficient-improvement threshold of the step in progress
+            mesh = run.cur_poll["mesh"] if run.cur_poll is not None else (run.probes[-1]["mesh"] if run.probes else 1.0)
+            tf = float(run.user_opts.get("tol_fun", 1e-3))
+            return run.m - max(mesh ** 1.5, tf)
         return {"S": run.m - 2.0, "I": run.m - 1e-9, "F": run.m + 1.0, "E": run.m}[a]
 
     def f(x):
@@ -240,7 +246,12 @@ def build_problem(run):
     lb, ub, plb, pub, logc = P.geometry(geo, D)
     x0 = P.start_point(job.get("x0", "in"), geo, D)
     raw = P.constraint(job.get("cons"), geo, D)
-    consf = None if raw is None else (lambda X: np.asarray(raw(X)).reshape(-1) > 0)  # boolean oracle: violated <=> value > 0 / True
+    def _viol(X):
+        v = np.asarray(raw(X)).reshape(-1)
+        # a point is acceptable only if the constraint *reports no violation*: value <= 0 / False (NaN is not "satisfying")
+        return ~(v <= 0) if v.dtype.kind == "f" else v.astype(bool)
+
+    consf = None if raw is None else _viol
     run.lb, run.ub, run.logc, run.consf = lb, ub, logc, consf
 
     cons_wrapped = None
@@ -352,6 +363,15 @@ def install(run, patch):
         return o_ei(self, f_base, f_new, s_base, s_new, q)
 
     patch.set(BADS, "_eval_improvement_", eval_impr)
+
+    o_addgp = bb.add_and_update_gp
+
+    def addgp(fl, gp, x_new, y_new, sd_new=None, options=None):
+        if run.cur_poll is not None:
+            run.cur_poll["n_add"] = run.cur_poll.get("n_add", 0) + 1
+        return o_addgp(fl, gp, x_new, y_new, sd_new, options)
+
+    patch.set(bb, "add_and_update_gp", addgp)
 
     o_pm = bb.poll_mads_2n
 
@@ -530,6 +550,10 @@ def install_observers(run, patch):
                 run.v("C15", "training set is selected around a point that is not the current incumbent", "neighbours-wrong-centre/%s" % run.phase, (uu_.tolist(), allowed[0].tolist()))
         out = o_lgf(gp, u, fl, options, optim_state, ih, refit)
         g = out[0]
+        try:
+            g._verif_centre = np.ravel(u).copy() if run.phase in ("poll", "search") else None   # per GP object (copies carry it along)
+        except Exception:  # noqa
+            pass
         check_gp("local", g, fl)
         n = fl.Xn + 1
         X = fl.X[:n]
@@ -552,7 +576,21 @@ def install_observers(run, patch):
 
     o_add = bb.add_and_update_gp
 
+    def centre_is_incumbent(tag, gp=None):
+        """Between local fits the training set keeps the centre of the last selection: it must still be the incumbent
+        (an incumbent move has to force a re-selection before the surrogate is used or updated again)."""
+        c = getattr(gp, "_verif_centre", None)
+        if run.phase in ("poll", "search") and c is not None and run.step_u0 is not None:
+            allowed = [run.step_u0]
+            if run.phase == "search" and run.calls:
+                vt_ = run.bads.function_logger.variable_transformer if run.bads is not None else None
+                if vt_ is not None:
+                    allowed.append(np.ravel(vt_(run.calls[-1]["x"].reshape(1, -1))))
+            if not any(np.allclose(c, a, rtol=0, atol=1e-12) for a in allowed):
+                run.v("C15", "surrogate used/updated with a training set selected around a previous incumbent", "stale-training-centre/%s" % tag, (c.tolist(), run.step_u0.tolist()))
+
     def add(fl, gp, x_new, y_new, sd_new=None, options=None):
+        centre_is_incumbent("update", gp)
         k0 = gp.X.shape[0]
         g = o_add(fl, gp, x_new, y_new, sd_new, options)
         if g.X.shape[0] == k0 + 1:
@@ -579,17 +617,20 @@ def install_observers(run, patch):
     # ---- acquisition (C15 formula, C18 collection)
     def mk_acq(orig, tag):
         def acq(xi, fc, gp, sqrt_beta=None):
+            if tag == "bads":
+                centre_is_incumbent("acquisition", gp)
             z, mu, s = orig(xi, fc, gp, sqrt_beta)
-            if xi.shape[0] > 0 and (sqrt_beta is None):
+            ref = None
+            if xi.shape[0] > 0 and (sqrt_beta is None or (np.isscalar(sqrt_beta) and not callable(sqrt_beta))):
                 t = fc + 1
-                sb = np.sqrt(0.4 * np.log(xi.shape[1] * t**2 * np.pi**2 / 0.6))
+                sb = np.sqrt(0.4 * np.log(xi.shape[1] * t**2 * np.pi**2 / 0.6)) if sqrt_beta is None else float(sqrt_beta)
                 m2, s2 = gp.predict(xi)
                 ref = m2 - sb * np.sqrt(s2)
                 if not np.allclose(z, ref, rtol=1e-12, atol=1e-12, equal_nan=True):
                     run.v("C15", "acquisition value differs from mean - sqrt(beta_t)*sd", "lcb-formula/%s" % tag,
                           float(np.nanmax(np.abs(np.asarray(z) - ref))))
             if tag == "es" and run.es_holder is not None:
-                run.es_holder.append((np.array(xi, float).copy(), np.ravel(z).copy()))
+                run.es_holder.append((np.array(xi, float).copy(), np.ravel(z).copy(), None if ref is None else np.ravel(ref).copy()))
             run.stats["acq_" + tag] += 1
             return z, mu, s
 
@@ -608,8 +649,17 @@ def install_observers(run, patch):
             if not hold and np.size(us) > 0:
                 run.v("C18", "the strategy proposed a point although no candidate survived the filters", "es-proposal-without-survivors", np.ravel(us)[:3].tolist())
             if hold:
-                allz = np.concatenate([b_ for a_, b_ in hold])
-                allx = np.vstack([a_ for a_, b_ in hold])
+                allz = np.concatenate([h[1] for h in hold])
+                allx = np.vstack([h[0] for h in hold])
+                # independent reference: the configured LCB recomputed from the GP mean / SD for every collected candidate
+                if all(h[2] is not None for h in hold) and np.size(us):
+                    allref = np.concatenate([h[2] for h in hold])
+                    jj = np.where((allx == np.ravel(us)).all(1))[0]
+                    if len(jj) and not np.all(np.isnan(allref)):
+                        best = np.nanmin(allref)
+                        if not any(abs(allref[i] - best) <= 1e-9 * (1.0 + abs(best)) for i in jj):
+                            run.v("C18", "proposed point does not minimise the configured lower confidence bound (recomputed independently)", "es-not-argmin-of-configured-lcb",
+                                  (float(min(allref[i] for i in jj)), float(best)))
                 zz = float(np.ravel(z)[0]) if np.size(z) else np.nan
                 if np.all(np.isnan(allz)):
                     # every acquisition value is NaN (degenerate GP): "lowest value" is undefined -> don't-care,
@@ -662,7 +712,7 @@ def install_observers(run, patch):
                     run.v("C17", "candidate outside the box it was filtered against", "filter-outside/%s" % site, "")
                 if len(np.unique(out, axis=0)) != len(out):
                     run.v("C17", "duplicate candidates handed on", "filter-duplicates/%s" % site, "")
-                if run.consf is not None and nbc is not None:
+                if run.consf is not None:
                     if np.any(run.consf(fl.variable_transformer.inverse_transf(out))):
                         run.v("C17", "infeasible candidate handed on", "filter-infeasible/%s" % site, "")
                 n = fl.X_max_idx + 1
